@@ -1851,30 +1851,55 @@ def _eigh_one(Sv, Sids):
     Si = Sids.tolist()
     ei = e_s._ids.tolist()
     Vi = V_s._ids.tolist()
-    recon = {}
-    recon_lhs = {}
-    for i in range(n):
-        for j in range(n):
-            acc = 0
-            for m in range(n):
-                acc = d.add(acc, d.mul(d.mul(Vi[i][m], ei[m]), Vi[j][m]))
-            recon[(i, j)] = d.eq(acc, Si[i][j])
-            recon_lhs[(i, j)] = acc
-    ortho_rows = {}
-    ortho_cols = {}
-    for i in range(n):
-        for j in range(n):
-            acc = 0
-            acc2 = 0
-            for m in range(n):
-                acc = d.add(acc, d.mul(Vi[i][m], Vi[j][m]))
-                acc2 = d.add(acc2, d.mul(Vi[m][i], Vi[m][j]))
-            ortho_rows[(i, j)] = d.eq(acc, 1 if i == j else 0)
-            ortho_cols[(i, j)] = d.eq(acc2, 1 if i == j else 0)
-    sym = d.and_(*[d.eq(Si[i][j], Si[j][i]) for i in range(n) for j in range(i + 1, n)])
+
+    class Rows(dict):
+        """contract rows built on demand (a 61x61 codon model would otherwise cost O(n^3) nodes per call)"""
+
+        def __init__(self, fn):
+            super().__init__()
+            self.fn = fn
+
+        def __missing__(self, key):
+            v = self.fn(*key)
+            self[key] = v
+            return v
+
+    def lhs(i, j):
+        acc = 0
+        for m in range(n):
+            acc = d.add(acc, d.mul(d.mul(Vi[i][m], ei[m]), Vi[j][m]))
+        return acc
+
+    recon_lhs = Rows(lhs)
+    recon = Rows(lambda i, j: d.eq(recon_lhs[(i, j)], Si[i][j]))
+
+    def orow(i, j):
+        acc = 0
+        for m in range(n):
+            acc = d.add(acc, d.mul(Vi[i][m], Vi[j][m]))
+        return d.eq(acc, 1 if i == j else 0)
+
+    def ocol(i, j):
+        acc = 0
+        for m in range(n):
+            acc = d.add(acc, d.mul(Vi[m][i], Vi[m][j]))
+        return d.eq(acc, 1 if i == j else 0)
+
+    ortho_rows = Rows(orow)
+    ortho_cols = Rows(ocol)
+
+    class LazySym:
+        def __init__(self):
+            self.v = None
+
+        def get(self):
+            if self.v is None:
+                self.v = d.and_(*[d.eq(Si[i][j], Si[j][i]) for i in range(n) for j in range(i + 1, n)])
+            return self.v
+
     t.contracts.append({'kind': 'eigh', 'S': SymTensor(Sv, Sids), 'e': e_s, 'V': V_s, 'recon': recon,
                         'recon_lhs': recon_lhs, 'ortho_rows': ortho_rows, 'ortho_cols': ortho_cols,
-                        'symmetric_obligation': sym})
+                        'symmetric_obligation_lazy': LazySym()})
     t.known_inverse[tuple(V_s._ids.reshape(-1).tolist())] = V_s._ids.t().clone()
     return e_s, V_s
 
